@@ -136,6 +136,7 @@ pub fn execute(case: &ChanCase) -> ChanRun {
         log_ops: true,
         abort_unwind: true,
         script: vec![],
+        abort_on_cell_race: false,
     };
     let exec = Exec::new(cfg, n);
     let ch: Arc<Channel<Payload>> = Arc::new(Channel::new());
@@ -483,9 +484,9 @@ pub fn analyse(case: &ChanCase, run: &ChanRun) -> CaseReport {
         .collect();
     rep.hash = hash_of(&shape);
 
-    let completed = run.res.outcome == Outcome::Completed && panics.is_empty();
+    let completed = run.res.outcome == Outcome::Completed;
     rep.aborted = run.res.outcome != Outcome::Completed;
-    if completed && !run.res.violations.iter().any(|v| v.key.starts_with("C07/race")) {
+    if completed {
         // ---- C06
         let sends: Vec<&OpRec> = ops.iter().filter(|o| o.is_send).collect();
         let recvs: Vec<&OpRec> = ops.iter().filter(|o| !o.is_send).collect();
@@ -533,20 +534,26 @@ pub fn analyse(case: &ChanCase, run: &ChanRun) -> CaseReport {
                     }
                     outstanding += 1;
                 }
-                if outstanding < 5 {
-                    rep.violations.push(Viol {
-                        key: "C06/discard<5".into(),
-                        msg: format!("value {} was lost although only {} other values could be outstanding", s.val, outstanding),
-                    });
-                }
-                // dropped inside send? (C07)
+                // dropped inside its own send? then it was discarded by send (allowed when full);
+                // otherwise the channel had accepted it and lost it afterwards
                 let inside = drops.iter().any(|(i, t, id)| {
                     *id == s.val && *t == s.tid && *i > s.call_idx && s.ret_idx.map_or(true, |r| *i < r)
                 });
-                if !inside {
+                if inside {
+                    if outstanding < 5 {
+                        rep.violations.push(Viol {
+                            key: "C06/discard<5".into(),
+                            msg: format!("value {} was discarded although only {} other values could be outstanding", s.val, outstanding),
+                        });
+                    }
+                } else {
+                    rep.violations.push(Viol {
+                        key: "C06/lost".into(),
+                        msg: format!("value {} was accepted by send (not dropped inside it) but no receive ever obtained it", s.val),
+                    });
                     rep.violations.push(Viol {
                         key: "C07/drop-count".into(),
-                        msg: format!("discarded value {} was not dropped inside send", s.val),
+                        msg: format!("value {} was neither received nor dropped inside its send", s.val),
                     });
                 }
             }
